@@ -125,6 +125,23 @@ def scenario(exe, root, seed, stats):
         exp_bad = set(p for p, _, _ in exp_data) | set(p for p, _ in exp_par)
         if bad != exp_bad:
             fail('stripes marked bad %s, damaged stripes %s' % (sorted(bad)[:8], sorted(exp_bad)[:8]), desc, st)
+        # a second pass over the same damage must name exactly the same blocks (nothing recorded by the
+        # first scrub may change what is reported) ...
+        r = a.cmd('check', '-a'); stats['runs'] += 1
+        de, pe = fx.err_tags(r)
+        if de != exp_data:
+            fail('check -a after the scrub reports data errors %s (symmetric difference with the damaged blocks)' % (sorted(de ^ exp_data)[:3],), desc, r)
+        # ... and once the original bytes are back, scrub -p bad must verify the marked stripes, clear the marks and exit 0
+        for d in a.disks:
+            shutil.rmtree(a.ddir(d)); shutil.copytree(os.path.join(backup, d), a.ddir(d), symlinks=True)
+        shutil.rmtree(os.path.join(a.root, 'par')); shutil.copytree(os.path.join(backup, 'par'), os.path.join(a.root, 'par'))
+        r = a.cmd('scrub', '-p', 'bad'); stats['runs'] += 1
+        de, pe = fx.err_tags(r)
+        if r.rc != 0 or de or pe:
+            fail('after restoring the original bytes scrub -p bad still reports errors %s %s / exits %d' % (sorted(de)[:2], sorted(pe)[:2], r.rc), desc, r)
+        bad, st = fx.bad_blocks(a)
+        if bad:
+            fail('after restoring the original bytes and scrub -p bad, stripes %s stay marked bad' % sorted(bad)[:5], desc, st)
         if out:
             break
     shutil.rmtree(backup, ignore_errors=True)
